@@ -179,14 +179,23 @@ impl AutosarModel {
         // This must be known before the new data is merged, because merging cannot be undone
         {
             let data = self.0.read();
+            // the same holds for a path that the new data itself defines twice, as different kinds of elements
+            let mut new_kinds: HashMap<&str, ElementName> = HashMap::with_capacity(parser.identifiables.len());
             for (key, value) in &parser.identifiables {
-                if let (Some(existing_element), Some(new_element)) =
-                    (data.identifiables.get(key).and_then(WeakElement::upgrade), value.upgrade())
-                {
-                    if existing_element.element_name() != new_element.element_name() {
+                if let Some(new_element) = value.upgrade() {
+                    if let Some(existing_element) = data.identifiables.get(key).and_then(WeakElement::upgrade) {
+                        if existing_element.element_name() != new_element.element_name() {
+                            return Err(AutosarDataError::OverlappingDataError {
+                                filename,
+                                path: existing_element.xml_path(),
+                            });
+                        }
+                    }
+                    let first_kind = *new_kinds.entry(key.as_str()).or_insert(new_element.element_name());
+                    if first_kind != new_element.element_name() {
                         return Err(AutosarDataError::OverlappingDataError {
                             filename,
-                            path: existing_element.xml_path(),
+                            path: new_element.xml_path(),
                         });
                     }
                 }
